@@ -10,7 +10,7 @@ EDGE_JUNK = [b"\x0b", b"\x0c", b"\xc2\x85", b"\xc2\xa0", b"\xe2\x80\xa8", b"\xe3
 
 class C14(Prop):
     pid = "C14"
-    fields = {"jsonsnap": "*", "obs": ["outcome", "errors", "logs", "writes", "line"], "fs": "*"}
+    fields = {"jsonsnap": "*", "obs": ["outcome", "errors", "logs", "writes", "~line"], "fs": "*"}
     rule = ("random JSON ASTs (depth <= 4, empty containers, keys/strings with escapes, unicode, `%`, `---`; numbers of all "
             "lexical shapes) each rendered in several presentations (random insignificant whitespace, shuffled member order) "
             "x input form {string, []byte, Go value} x options (width 0/20/80, indent '', ' ', tab, sort on/off); a malformed "
@@ -132,7 +132,7 @@ class C14(Prop):
         for k, ((name, kv), (_, idx, o)) in enumerate(zip(mops, obs)):
             if kv["pre"] == "invalid":
                 changed = 2 * k + 1 < len(fss) and fss[2 * k][2] != fss[2 * k + 1][2]
-                if o["outcome"] != "failed:invalid" or o["errors"] != "1" or o["writes"] != "-" or changed:
+                if not o["outcome"].startswith("failed") or o["errors"] != "1" or o["writes"] != "-" or changed:
                     fails.append({"msg": "obs %d: invalid JSON: outcome=%s errors=%s writes=%s" % (idx, o["outcome"], o["errors"], o["writes"])})
         return fails
 
